@@ -183,3 +183,17 @@ func sortedKeys(m map[string]int) []string {
 	sort.Strings(ks)
 	return ks
 }
+
+// JournalMark, when set by the worker, records in the job's journal which
+// phase of the current run is executing ("oracle/what" or "" for none), so that
+// the supervisor can attribute a process crash inside that phase to the oracle
+// the phase belongs to (C06: a crash between the injection of a datagram failing
+// the integrity check and the following quiescence IS an effect of that datagram).
+var JournalMark func(tag string)
+
+// Mark records the phase of the run in the journal.
+func Mark(tag string) {
+	if JournalMark != nil {
+		JournalMark(tag)
+	}
+}
